@@ -45,11 +45,17 @@ fn truncate_str_impl<'a>(
     };
     let mut used = measure_text_width(&result_tail);
     let mut result = String::new();
+    let mut cut = false;
     for (t, is_ansi) in items {
         if !is_ansi {
+            if cut {
+                // Text after the cut is dropped; only escape sequences are kept.
+                continue;
+            }
             for g in t.graphemes(true) {
                 let width_of_grapheme = g.width();
                 if used + width_of_grapheme > display_width {
+                    cut = true;
                     // Handle case "2." mentioned in `truncate_str` docs and fill the
                     // hole left by double-width (2w) truncation.
                     if let Some(fillchar) = fill2w {
